@@ -52,12 +52,20 @@ def _interning_deser(w: World, cache: dict):
     return deser
 
 
-def _ser(w: World):
+def _ser(w: World, style="inplace_ret"):
+    """Serialising mapper in the three documented styles: modify `data` in place
+    and return None, modify in place and return it, or return a new dict."""
     def ser(node, data):
         w.fault.tick("mapper")
+        if style == "new":
+            # a fresh dict built from the documented fields only
+            new = {k: data[k] for k in ("data", "str", "data_id", "kind") if k in data}
+            if not isinstance(node.data, str):
+                new.update(encode_value(node.data))
+            return new
         if not isinstance(node.data, str):
             data.update(encode_value(node.data))
-        return data
+        return None if style == "inplace_none" else data
 
     return ser
 
@@ -264,7 +272,7 @@ def plan_restart(w: World, op: dict) -> Plan:
     if user_meta:
         kw["meta"] = dict(user_meta)
     if not class_style and not no_mapper:
-        kw["mapper"] = _ser(w)
+        kw["mapper"] = _ser(w, op.get("mapper_style", "inplace_ret"))
     if comp is not None:
         kw["compression"] = comp if isinstance(comp, bool) else COMPRESSION[comp]
     trigger = "restart/file/" + target_kind
@@ -450,11 +458,9 @@ def _plan_restart_dict(w: World, op, si, mt, rt) -> Plan:
     if _has_equal_valued_distinct_identity_objects(mt):
         return Plan(EXCLUDED, why="distinct identity-hashed objects with equal stored value")
 
-    def ser(node, data):
-        w.fault.tick("mapper")
-        if not isinstance(node.data, str):
-            data.update(encode_value(node.data))
-        return data
+    ser = _ser(w, op.get("mapper_style", "inplace_ret"))
+    if use_mapper:
+        trigger += "/" + op.get("mapper_style", "inplace_ret")
 
     def call():
         if use_mapper:
